@@ -82,7 +82,46 @@ fn main() {
     let mut counters = serde_json::Map::new();
     let mut violations: Vec<Violation> = vec![];
     let mut missing: Vec<String> = vec![];
+    // seconds-long replay tier: committed regression seeds (shrunk failing cases of earlier
+    // findings and of seeded changes) are re-run first, without the generator
+    let mut seeds_replayed = 0u64;
+    let mut seeds_stale: Vec<String> = vec![];
+    if ctx.only_sub.is_none() {
+        let mut files: Vec<_> = std::fs::read_dir(format!("{}/replays/seeds", verif_dir))
+            .map(|d| d.filter_map(|e| e.ok()).map(|e| e.path()).collect())
+            .unwrap_or_default();
+        files.sort();
+        for f in files {
+            let name = f.file_name().and_then(|n| n.to_str()).unwrap_or("").to_string();
+            if !name.starts_with(&format!("{}-", id)) || !name.ends_with(".json") {
+                continue;
+            }
+            let Some(doc) = std::fs::read_to_string(&f).ok().and_then(|t| serde_json::from_str::<Value>(&t).ok()) else {
+                seeds_stale.push(name);
+                continue;
+            };
+            let Some(s) = spec.subs.iter().find(|s| Some(s.name()) == doc["sub"].as_str()) else {
+                seeds_stale.push(name);
+                continue;
+            };
+            match s.replay(&doc["case"]) {
+                Err(_) => seeds_stale.push(name),
+                Ok(Ok(())) => seeds_replayed += 1,
+                Ok(Err(fl)) if ctx.is_open(&fl.sig) => {
+                    seeds_replayed += 1;
+                    let e = tolerated.entry(fl.sig.clone()).or_insert(json!(0));
+                    *e = json!(e.as_u64().unwrap_or(0) + 1);
+                }
+                Ok(Err(fl)) if fl.sig.starts_with("inconclusive") => seeds_stale.push(format!("{} ({})", name, fl.sig)),
+                Ok(Err(fl)) => violations.push(Violation { sub: s.name().to_string(), sig: fl.sig, detail: fl.detail, case: doc["case"].clone(), replay_path: f.to_string_lossy().to_string() }),
+            }
+        }
+        evaluations += seeds_replayed;
+    }
     for s in &spec.subs {
+        if !violations.is_empty() {
+            break;
+        }
         if let Some(only) = &ctx.only_sub {
             if only != s.name() {
                 continue;
@@ -145,6 +184,7 @@ fn main() {
     if !counters.is_empty() {
         coverage["counters"] = Value::Object(counters);
     }
+    coverage["regression_seeds"] = json!({"replayed": seeds_replayed, "not_decodable_or_inconclusive": seeds_stale});
     if !fuzz_report.is_null() {
         coverage["fuzz"] = fuzz_report;
     }
